@@ -192,6 +192,30 @@ class TreeSuite(Suite):
     def cases(self, rng, tier, widen):
         out = []
         big = tier == "thorough" or widen
+        # guaranteed quota: a furcation whose two sister branches end at the same point, one in a tip, one in a node with a subtree
+        for m in ([1, 2, 3] if not big else [1, 2, 3, 4, 5]):
+            pids = [-1, 0]                     # 0 root, 1 furcation
+            xyz = [[0.0, 0.0, 0.0], [2.0, 0.0, 0.0]]
+            # branch A: 1 -> … -> tip at P = (2, 4, 0) going through (2+m, *, 0); branch B: 1 -> … -> P through (2-m, *, 0)
+            P = [2.0, 4.0, 0.0]
+            prev = 1
+            for q in ([2.0 + m, 0.0, 0.0], [2.0 + m, 4.0, 0.0], P):
+                pids.append(prev); xyz.append(list(q)); prev = len(pids) - 1
+            tipA = prev
+            prev = 1
+            for q in ([2.0 - m, 0.0, 0.0], [2.0 - m, 4.0, 0.0], P):
+                pids.append(prev); xyz.append(list(q)); prev = len(pids) - 1
+            endB = prev
+            for q in ([2.0, 6.0, 0.0], [2.0, 4.0, 3.0]):   # subtree below B's end: two tips
+                pids.append(endB); xyz.append(list(q))
+            if rng.random() < 0.5:                         # numbering must not matter
+                perm = list(range(1, len(pids))); rng.shuffle(perm); perm = [0] + perm
+                np_, nx = [0] * len(pids), [None] * len(pids)
+                for old, pp in enumerate(pids):
+                    np_[perm[old]] = -1 if pp == -1 else perm[pp]; nx[perm[old]] = xyz[old]
+                pids, xyz = np_, nx
+            t = {"n": len(pids), "pids": pids, "types": [1] + [3] * (len(pids) - 1), "xyz": xyz, "r": [1.0] * len(pids)}
+            out.append({"class": "iso-coincident-ends/named", "tree": t, "op": "iso", "arg": rng.choice([0.5, 1.0, 1.5])})
         k = 0
         for n in [2, 3, 4, 6, 9, 14] + ([30, 80] if big else []):
             for _ in range(2 if not big else 5):
@@ -221,6 +245,15 @@ class TreeSuite(Suite):
                     continue
                 t = {"n": nn, "pids": pids, "types": [1] + [3] * (nn - 1), "xyz": [[float(c) for c in xyz[i]] for i in range(nn)],
                      "r": [rng.randint(2, 8) / 4 for _ in range(nn)]}
+                if nn >= 4 and rng.random() < 0.5:
+                    # two sister branches that END AT THE SAME POINT, one at a tip and one at a node that carries a subtree:
+                    # re-assembly has to give each branch its own end node
+                    tips = [i for i in range(1, nn) if i not in pids and pids[i] != 0]
+                    cand = [(a, b) for a in tips for b in range(1, nn) if b != a and pids[b] == pids[a] and b in pids]
+                    if cand:
+                        a, b = rng.choice(cand)
+                        t2 = dict(t); t2["xyz"] = [list(p) for p in t["xyz"]]; t2["xyz"][a] = list(t["xyz"][b])
+                        out.append({"class": f"iso-coincident-ends/{shape}", "tree": t2, "op": "iso", "arg": rng.choice([0.5, 1.0])})
                 for op in (("iso", rng.choice([0.4, 0.5, 1.0, 1.5, 2.5])), ("smooth", rng.choice([3, 5]))):
                     out.append({"class": f"{op[0]}/{shape}", "tree": t, "op": op[0], "arg": op[1]})
         return out
